@@ -19,7 +19,7 @@ import ast
 import re
 
 from ..cfg import ENTRY, EXIT, header_parts
-from ..flow import Defs, all_defs_text, conjuncts, guard_facts, iterations, rejections
+from ..flow import Defs, all_defs_text, conjuncts, guard_facts, iterations, rejections, stores_into
 from ..loader import AnalysisError, FuncInfo, dotted, norm, walk_no_nested
 from ..report import Ctx
 from ..selftest import Mutant
@@ -90,9 +90,17 @@ def _precedence(ctx: Ctx, fn: FuncInfo) -> None:  # noqa: C901
             sources.append((n, cls))
     seen_classes = [c for _n, c in sources]
     unknown = [c for c in seen_classes if c.startswith("?")]
+    params = set(fn.param_names())
+    opaque = False
     for c in unknown:
         n = next(n for n, cc in sources if cc == c)
-        ctx.add("1-precedence", fn, cfg.stmt[n], False, f"the value of `{p}` is taken from `{c[1:]}`, which is none of bound / supplied / upstream output / default", key=f"source {c[1:40]}")
+        root = c[1:].split(".")[0].split("[")[0]
+        concrete = re.fullmatch(r"[\w.]+", c[1:]) is not None and (root in params or root == "self")
+        # a parameter / attribute container that is none of the four sources is a positively identified violation;
+        # anything else (a loop variable ranging over sources, a merged dict, ...) is beyond this rule: abstain
+        opaque |= not concrete
+        ctx.add("1-precedence", fn, cfg.stmt[n], False if concrete else None, f"the value of `{p}` is taken from `{c[1:]}`, which is none of bound / supplied / upstream output / default" if concrete else
+                f"UNDECIDED: the value of `{p}` is taken from `{c[1:]}`, which this rule cannot classify", key=f"source {c[1:40]}")
     ctx.tri("1-precedence", fn, loop, set(ORDER) <= set(seen_classes), False, "values come from bound, supplied, upstream outputs and defaults", "", f"sources found: {seen_classes}", key="sources")
     for n, cls in sources:
         if cls.startswith("?"):
@@ -103,8 +111,11 @@ def _precedence(ctx: Ctx, fn: FuncInfo) -> None:  # noqa: C901
             if m and _classify(m.group(1)):
                 facts.setdefault(_classify(m.group(1)), pol)
         missing = [h for h in ORDER if RANK[h] < RANK[cls] and facts.get(h) is not False]
-        ctx.add("1-precedence", fn, cfg.stmt[n], not missing, f"`{p}` is taken from {cls} only when it is in none of {[h for h in ORDER if RANK[h] < RANK[cls]]}" if not missing else
-                f"`{p}` is taken from {cls} without first excluding {missing}: precedence must be bound > supplied > upstream output > default", key=f"arm {cls}")
+        # a higher-priority source that is consulted through an unclassified construct may be excluded there
+        verdict = (not missing) if not (missing and opaque) else None
+        ctx.add("1-precedence", fn, cfg.stmt[n], verdict, f"`{p}` is taken from {cls} only when it is in none of {[h for h in ORDER if RANK[h] < RANK[cls]]}" if not missing else
+                (f"`{p}` is taken from {cls} without first excluding {missing}: precedence must be bound > supplied > upstream output > default" if verdict is False else
+                 f"UNDECIDED: exclusion of {missing} before taking `{p}` from {cls} not recognised (sources are consulted through a construct this rule cannot classify)"), key=f"arm {cls}")
     rj = [r for r in rejections(cfg, fn.node, d) if not r["dead"] and any(x is r["node"] for x in ast.walk(loop))]
     ctx.tri("1-precedence", fn, loop, bool(rj), not rj and fn.name == "_get_func_args", "an unresolvable argument raises", "an unresolvable argument is silently accepted (no raise in the resolution loop)", "no raise in the loop", key="else-raises")
 
@@ -213,10 +224,13 @@ def rule_recursion_state(ctx: Ctx) -> None:
             continue
         n += 1
         ps = fn.param_names()
-        out_params = {p_ for p_ in ps if "set" in p_ or "result" in p_ or "out" in p_}  # accumulators that are meant to be shared
-        muts = {p_: node for p_, node in _param_mutations(fn).items() if p_ not in out_params} | {
-            x.func.value.id: x for x in ast.walk(fn.node) if isinstance(x, ast.Call) and isinstance(x.func, ast.Attribute) and x.func.attr in ("append", "extend", "add", "insert") and isinstance(x.func.value, ast.Name)
-            and x.func.value.id in ps and x.func.value.id not in out_params}
+        # only *sequence* state (the path taken so far): list-annotated parameters or parameters mutated with list
+        # methods.  Sets that are filled in place are visited-sets / result accumulators, shared on purpose.
+        ann = {a.arg: norm(a.annotation) if a.annotation is not None else "" for a in fn.params}
+        listy = {p_ for p_ in ps if re.match(r"(list|List|Sequence|MutableSequence)\b", ann.get(p_, ""))}
+        muts = {p_: node for p_, node in _param_mutations(fn).items() if p_ in listy} | {
+            x.func.value.id: x for x in ast.walk(fn.node) if isinstance(x, ast.Call) and isinstance(x.func, ast.Attribute) and x.func.attr in ("append", "extend", "insert") and isinstance(x.func.value, ast.Name)
+            and x.func.value.id in ps}
         shared = [(p_, c) for p_ in muts for c in rec for i, a in enumerate(c.args) if isinstance(a, ast.Name) and a.id == p_ and i < len(ps) and ps[i] == p_]
         ctx.add("5-order-free", fn, muts[shared[0][0]] if shared else fn.node, not shared, f"{fn.name}: per-branch state is passed down as a fresh copy" if not shared else
                 f"`{norm(muts[shared[0][0]])[:50]}` mutates the parameter `{shared[0][0]}` and the same object is handed to the recursive call: sibling branches of the recursion see each other's entries", key=f"recursion-state {fn.name}")
@@ -243,10 +257,11 @@ def rule_once(ctx: Ctx) -> None:
     gfa = cfg.nodes(lambda s: _has_call(s, "_get_func_args"))
     ctx.tri("2-once", run_, cfg.stmt[gfa[0]] if gfa else run_.node, bool(gfa) and all(cfg.dominates(g, exe[0]) for g in gfa), bool(gfa) and not all(cfg.dominates(g, exe[0]) for g in gfa),
             "arguments (and thereby all dependencies) are resolved before execution", "_execute_func is reachable without _get_func_args", "_get_func_args call not found", key="deps-first")
-    upd = set(cfg.nodes(lambda s: _has_call(s, "_update_all_results")))
+    stores = stores_into(ctx, run_, memo_p)
+    upd = {n for n in (cfg.node_containing(x) for x, _chain in stores) if n is not None}
     ok = bool(upd) and cfg.must_pass(exe[0], EXIT, upd, normal_only=True)
     wp = None if ok else cfg.witness_path(exe[0], EXIT, upd)
-    ctx.add("2-once", run_, cfg.stmt[exe[0]], ok, "every normal path from the execution stores the result in the memo" if ok else "a path from _execute_func to the return skips _update_all_results (the function would run again)", key="memo-store",
+    ctx.add("2-once", run_, cfg.stmt[exe[0]], ok, "every normal path from the execution stores the result in the memo" if ok else "a path from _execute_func to the return never stores the result in the memo `all_results` (the function would run again)", key="memo-store",
             path=cfg.describe(wp, run_.module.relpath) if wp else None)
     rn = P.func(f"{BASE}.Pipeline.run")
     d = Defs(rn)
@@ -265,26 +280,60 @@ def rule_once(ctx: Ctx) -> None:
             "the recursive _run call does not pass on the memo of the current evaluation: shared dependencies run once per consumer", "recursive call not found", key="recursion-shares-memo")
 
 
+def _memo_store_function(ctx: Ctx) -> tuple[FuncInfo, str, str | None]:
+    """The function that Pipeline._run hands the memo to for storing a result, found through the call graph (not by
+    name): (function, its memo parameter, the parameter that receives the requested output name)."""
+    P = ctx.prog
+    run_ = P.func(f"{BASE}.Pipeline._run")
+    exe = [c for c in ast.walk(run_.node) if isinstance(c, ast.Call) and dotted(c.func).rsplit(".", 1)[-1] == "_execute_func"]
+    after = exe[0].lineno if exe else 0
+    for x, chain in sorted(stores_into(ctx, run_, "all_results"), key=lambda t: t[0].lineno):
+        if chain and isinstance(x, ast.Call) and x.lineno > after:
+            from ..flow import bind_args
+
+            callee, memo = chain[-1]
+            req = None
+            if len(chain) == 1:
+                req = next((p_ for p_, a in bind_args(x, callee).items() if isinstance(a, ast.Name) and a.id == "output_name"), None)
+            return callee, memo, req
+    raise AnalysisError("Pipeline._run: no call that stores the result of the execution into the memo was found")
+
+
 def rule_routing(ctx: Ctx) -> None:
     P = ctx.prog
-    ur = P.func(f"{BASE}._update_all_results")
+    ur, memo, requested = _memo_store_function(ctx)
     cfg = ctx.cfg(ur)
     d = Defs(ur)
-    ps = ur.param_names()
-    requested = ps[2] if len(ps) > 2 else "output_name"
-    memo = ps[3] if len(ps) > 3 else "all_results"
-    per_name = [it for it in iterations(ur.node) if it["kind"] == "loop" and norm(it["iter"]).endswith(".output_name")
-                and any(isinstance(a, ast.Assign) and any(isinstance(t, ast.Subscript) and norm(t.value) == memo and norm(t.slice) == norm(it["target"]) for t in a.targets) for a in ast.walk(it["node"]))]
-    if per_name:
+
+    def is_own_names(e: ast.AST) -> bool:
+        r = d.resolve(e)
+        return isinstance(r, ast.Attribute) and r.attr == "output_name"
+
+    stores = [(a, t) for a in ast.walk(ur.node) if isinstance(a, ast.Assign) for t in a.targets if isinstance(t, ast.Subscript) and norm(t.value) == memo]
+    per_name = [it for it in iterations(ur.node) if it["kind"] == "loop" and is_own_names(it["iter"])
+                and any(norm(t.slice) == norm(it["target"]) and any(x is a for x in ast.walk(it["node"])) for a, t in stores)]
+    partial = [it for it in iterations(ur.node) if it["kind"] == "loop" and not is_own_names(it["iter"]) and isinstance(d.resolve(it["iter"]), (ast.IfExp, ast.Subscript, ast.Tuple, ast.List, ast.ListComp, ast.GeneratorExp))
+               and any(isinstance(x, ast.Attribute) and x.attr == "output_name" for x in ast.walk(d.resolve(it["iter"])))
+               and any(norm(t.slice) == norm(it["target"]) and any(x is a for x in ast.walk(it["node"])) for a, t in stores)]
+    if partial and not per_name:
+        ctx.add("3-routing", ur, partial[0]["node"], False, f"the single names of a tuple output are stored for `{norm(d.resolve(partial[0]['iter']))[:70]}` only, not for every name of the function's output: consumers of the other names re-run the function or fail", key="all-names")
+        per_name = None  # type: ignore[assignment]
+    opaque = [a for a, t in stores if not (is_own_names(t.slice) or any(norm(t.slice) == norm(it["target"]) for it in (per_name or partial)))]
+    if per_name is None:
+        pass
+    elif per_name:
         n = cfg.node(per_name[0]["node"])
         facts = guard_facts(cfg, d, n)
-        on_request = [t for t, _pol in facts if re.search(rf"(?<![\w.]){re.escape(requested)}\b", t)]
+        on_request = [t for t, _pol in facts if requested and re.search(rf"(?<![\w.]){re.escape(requested)}\b", t)]
         ctx.add("3-routing", ur, per_name[0]["node"], not on_request, "every name of a tuple output is stored, whatever was requested" if not on_request else
                 f"single names are only stored under `{on_request[0]}`: when the tuple itself is requested, readers indexing by name (NestedPipeFunc wrapper, full_output) fail", key="all-names")
     else:
-        ctx.add("3-routing", ur, ur.node, False, "no loop stores every name of a tuple output into the per-call results: consumers of a single name re-run the function or fail", key="all-names")
-    single = [a for a in ast.walk(ur.node) if isinstance(a, ast.Assign) and any(isinstance(t, ast.Subscript) and norm(t.value) == memo and norm(t.slice).endswith(".output_name") for t in a.targets)]
-    ctx.add("3-routing", ur, single[0] if single else ur.node, bool(single), "results are stored under the function's output name" if single else "nothing is stored under the function's own output name", key="single-store")
+        # no per-name store at all is a positively identified violation only when every store of the function is understood
+        unknown = bool(opaque) or any(isinstance(c, ast.Call) and isinstance(c.func, ast.Attribute) and c.func.attr == "update" and norm(c.func.value) == memo for c in ast.walk(ur.node)) or len(stores_into(ctx, ur, memo)) > len(stores)
+        ctx.tri("3-routing", ur, ur.node, False, not unknown and bool(stores), "", "no loop stores every name of a tuple output into the per-call results: consumers of a single name re-run the function or fail",
+                "how the names of a tuple output reach the per-call results was not recognised", key="all-names")
+    single = [a for a, t in stores if is_own_names(t.slice)]
+    ctx.tri("3-routing", ur, single[0] if single else ur.node, bool(single), not single and bool(stores) and not opaque, "results are stored under the function's output name", "nothing is stored under the function's own output name", "stores into the memo not recognised", key="single-store")
     nw = P.func("pipefunc._pipefunc._NestedFuncWrapper.__call__")
     ctx.tri("3-routing", nw, nw.node, "[self.output_name]" in norm(nw.node) and "for name in self.output_name" in norm(nw.node), False, "nested wrapper reads the results by single name, in output_name order", "", "nested reader not recognised", key="nested-reader")
 
